@@ -31,6 +31,12 @@ func draw(t *rapid.T) sim.ChainCase {
 		OnBlock: func(g *sim.Gen, b *sim.Builder) {
 			// a contract revised and then revised again / renewed by a later transaction of the same block: the
 			// second transaction's parent must still be the genuine accumulator element
+			switch rapid.IntRange(0, 9).Draw(g.T, "batchScenario") {
+			case 0: // several contracts for the same period: their proofs will share one chain index element
+				b.AfterV1(func() { b.V2FormBatch() })
+			case 1, 2: // and, when several are provable, one transaction proves them together
+				b.AfterV1(func() { b.V2Resolve() })
+			}
 			if rapid.IntRange(0, 4).Draw(g.T, "reviseScenario") == 0 {
 				b.AfterV1(func() {
 					if b.V2Revise() {
